@@ -556,6 +556,13 @@ unsigned cmb_random_geometric(const double p)
     }
 
     unsigned x = (unsigned)ceil(cmb_random_std_exponential() / denom);
+    if (x < 1u) {
+        /*
+         * p == 1.0 (denom is infinite, the quotient 0.0) or an exponential
+         * variate of exactly 0.0: the first trial is the success.
+         */
+        x = 1u;
+    }
 
     cmb_assert_debug(x >= 1u);
     return x;
